@@ -381,6 +381,14 @@ inline void m05(const Edge& e, const Parsed& P) {
 		if (P.nout && P.out_ev[0] < firstOther) firstOther = P.out_ev[0];
 		if (P.nphase && P.phase_ev[P.nphase - 1] > firstOther) flag(C05, "phase-after-processing", e, "phase ev %d after ev %d", P.phase_ev[P.nphase - 1], firstOther);
 		if (P.nquery) flag(C05, "query-in-cycle", e, "query callback during update/react");
+		// injected callbacks belong to the phase of the state they are attached to: over all deliveries, own and injected, the position
+		// in the cycle (root pre, state pre, root mid, state mid, state post, root post) never goes backwards
+		{ int lastSlot = -1; for (int i = 0; i < e.nev; ++i) { const Ev& v = e.tr[i]; if (v.kind == EV_MARK) break; if (v.kind != EV_CB || !is_phase(v.meth)) continue;
+			int slot = -1; for (int q = 0; q < n; ++q) if (wantS[q] == v.sid && wantM[q] == v.meth) slot = q;
+			if (slot < 0) continue;   // reported above (wrong state) or below (inactive state)
+			if (slot < lastSlot) { flag(C05, "phase-order", e, "ev %d: %s of %s%d (injection %d) delivered after the cycle had moved on to a later phase", i, METH_NAME[v.meth], v.sid == ROOT ? "R" : "S", v.sid == ROOT ? 0 : v.sid, v.inj); break; }
+			lastSlot = slot;
+			if (v.inj && !up && !(v.flags & OF_EVENT)) flag(C05, "event-identity", e, "ev %d: injected callback did not receive the caller's event object", i); } }
 		// injections: callbacks of inactive states never run in the phases
 		for (int i = 0; i < e.nev; ++i) { const Ev& v = e.tr[i]; if (v.kind == EV_MARK) break; if (v.kind == EV_CB && is_phase(v.meth) && v.sid != ROOT && v.sid != A) flag(C05, "inactive-state-phase", e, "ev %d: %s on inactive S%d", i, METH_NAME[v.meth], v.sid); }
 		return;
@@ -459,9 +467,17 @@ inline void m07(const Edge& e, const Parsed& P) {
 	if (!(P.processing || P.activation) || P.structErr) {
 		if (e.op.k == OP_CHANGEW && !(e.post.req.set && e.post.req.tag == e.op.b)) flag(C07, "request-payload", e, "outstanding request lost its payload");
 		if (e.op.k == OP_CHANGE && e.post.req.set) flag(C07, "request-payload", e, "payload-free request exposes a payload");
+		// no request is being processed in this call (load, exit, replay, ...): whatever callbacks it runs see no payload as "current"
+		if (!P.structErr) for (int i = 0; i < e.nev; ++i) { const Ev& v = e.tr[i]; if (v.kind == EV_MARK) break; if (v.kind == EV_CB && (v.flags & OF_CUR) && v.cur.set) { flag(C07, "current-payload", e, "ev %d: %s of %d sees payload p%d as the current transition's although this call processes no request", i, METH_NAME[v.meth], v.sid, v.cur.tag); break; } }
 		return;
 	}
 	const int f = first_req_round(P);
+	// a request made in the last guard round cannot vanish together with its payload (or replace a payload-carrying one unseen): it is
+	// evaluated next, left over at the limit, or is the origin-less payload-less duplicate the library is known to drop (DESIGN.md O12)
+	if (P.nr > 0 && P.r[P.nr - 1].hasReq && (P.nr - f) < L && tx_empty(e.post.req)) {
+		const TxS acc = accepted_before(P, P.nr); const TxS lr = P.r[P.nr - 1].lastReq;
+		if ((acc.set || lr.set) && !is_dropped_duplicate(acc, lr)) flag(C07, "payload-request-dropped", e, "request %d>%d/p%d made in the last guard round was dropped unseen (accepted before it: %d>%d/p%d)", lr.o, lr.d, lr.tag, acc.o, acc.d, acc.tag);
+	}
 	// the payload the guards see is that of the request they evaluate
 	if (P.nr > f && P.reqBeforeTagKnown && P.reqBeforeKnown && !tx_empty(P.reqBefore)) { const TxS& s = P.r[f].subj; if (same_od(s, P.reqBefore) && ((s.set != 0) != (P.reqBefore.set != 0) || s.tag != P.reqBefore.tag)) flag(C07, "pending-payload", e, "round 1: guards see payload p%d/%d, request carried p%d/%d", s.tag, s.set, P.reqBefore.tag, P.reqBefore.set); }
 	for (int i = (P.activation ? 0 : f); i + 1 < P.nr; ++i) { const Round& r = P.r[i]; if (!r.hasReq) continue; const TxS& s = P.r[i + 1].subj; if (same_od(s, r.lastReq) && ((s.set != 0) != (r.lastReq.set != 0) || s.tag != r.lastReq.tag)) flag(C07, "pending-payload", e, "round %d: guards see payload p%d/%d, request carried p%d/%d", i + 2, s.tag, s.set, r.lastReq.tag, r.lastReq.set); }
